@@ -57,6 +57,17 @@ class Prov:
             for r in roots:
                 for sub in ast.walk(r):
                     self._node_of_expr[id(sub)] = n
+        # flow-insensitive content flows into local containers: X.append(v), X.add(v), X[k] = v, ...
+        self._content: Dict[str, List[Tuple[str, ast.AST]]] = {}
+        for nd in ast.walk(f.node):
+            if isinstance(nd, ast.Call) and isinstance(nd.func, ast.Attribute) and isinstance(nd.func.value, ast.Name) \
+                    and nd.func.attr in ("append", "add", "extend", "update", "insert", "setdefault", "appendleft"):
+                for a in nd.args:
+                    self._content.setdefault(nd.func.value.id, []).append((nd.func.attr, a))
+            elif isinstance(nd, ast.Assign):
+                for t in nd.targets:
+                    if isinstance(t, ast.Subscript) and isinstance(t.value, ast.Name):
+                        self._content.setdefault(t.value.id, []).append(("setitem", nd.value))
 
     # ------------------------------------------------------------------
     def node_of(self, expr: ast.AST) -> int:
@@ -277,6 +288,14 @@ class Prov:
                             found = True
                 if not found:
                     out.add((f"unknown:def@{type(st).__name__}",))
+        ckey = ("content", name)
+        if name in self._content and ckey not in seen and not (self.f.is_method and name == self.f.self_name):
+            for meth, arg in self._content[name]:
+                try:
+                    an = self.node_of(arg)
+                except KeyError:
+                    continue
+                out |= self._ext(self._trace(arg, an, seen | {ckey}, depth + 1), f"in:{meth}")
         if len(out) > MAXPATHS:
             out = set(sorted(out)[:MAXPATHS])
         return out
